@@ -18,6 +18,18 @@ theorem gen_facts :
     Gen.Advertise.shutdownAwaitsInflight = true ∧ Gen.Advertise.shutdownChecksTerminate = true ∧
     Gen.Advertise.shutdownCalls_send = true := by decide
 
+/-- The send gate's protocol, as it stands in the source (statement lists, regenerated): `enter`
+    refuses once the gate is closed and otherwise registers the transmission under the lock;
+    `close` marks the gate closed under the lock and then waits for the registered transmissions;
+    `leave` deregisters.  This is what the transition system's "no transmission begins after the
+    scheduler has stopped, and those in flight are awaited" stands on. -/
+theorem gen_send_gate :
+    Gen.Advertise.gateEnterStmts =
+      ["g.mu.Lock()", "defer g.mu.Unlock()", "if g.closed { return false }", "g.wg.Add(1)", "return true"] ∧
+    Gen.Advertise.gateCloseStmts = ["g.mu.Lock()", "g.closed = true", "g.mu.Unlock()", "g.wg.Wait()"] ∧
+    Gen.Advertise.gateLeaveStmts = ["g.wg.Done()"] := by
+  decide
+
 /-- …and there is no other way out of the scheduler's loop: every `return` inside it is preceded
     by that wait -/
 theorem gen_all_exits_await : Gen.Advertise.scheduleAllExitsAwait = true := by decide
